@@ -166,6 +166,11 @@ func registerIntrinsics(e *Exec) {
 		b := e.sliceToString(st, args[1].(SliceV))
 		return ret(st, BoolV{e.stringEq(st, a, b)})
 	}
+	in["internal/bytealg.MakeNoZero"] = func(e *Exec, st *State, fn *ssa.Function, args []Value) []Outcome {
+		n := args[0].(BV).T
+		id := e.alloc(st, ByteBuf{C: czero, Len: n})
+		return ret(st, SliceV{Base: Ptr{Obj: id}, Off: e.tc.Int(0), Len: n, Cap: n})
+	}
 	in["internal/stringslite.Index"] = nil
 	delete(in, "internal/stringslite.Index")
 
